@@ -100,6 +100,7 @@ struct Scenario {
   uint64_t max_items = 3;
   std::vector<ScOp> ops;
   bool final_write = true;
+  bool unwind = false;            // the exporter is destroyed while an application exception propagates (stack unwinding)
   int first_name = 0;
   std::vector<int> preexisting;   // names that exist (complete older outputs) before the run
   int name_kind[3] = {0, 0, 0};   // per name: 0 ordinary, 1 last path component 251..255 characters long, 2 '<name><suffix>.part' is occupied by a directory
@@ -111,7 +112,7 @@ struct Scenario {
     for (int n = 0; n < 3; n++) if (name_kind[n]) os << " n" << n << (name_kind[n] == 1 ? "=long-name" : "=part-blocked");
     os << ":";
     for (auto& o : ops) { if (o.kind == 0) { os << " buf("; for (auto& r : o.recs) { os << r.name_len; if (r.asn_len >= 0) os << "+asn" << r.asn_len; os << ","; } os << ")"; } else if (o.kind == 1) os << " write_block"; else os << " rotate(n" << o.name << ",export=" << o.exp << ")"; }
-    os << (final_write ? " write_block" : "") << " destroy";
+    os << (final_write ? " write_block" : "") << (unwind ? " destroy-during-unwinding" : " destroy");
     return os.str();
   }
 };
@@ -139,6 +140,7 @@ static Scenario gen_scenario(Chooser& c, bool allow_fd, unsigned size) {
     s.ops.push_back(o);
   }
   s.final_write = c.coin();
+  s.unwind = c.range(0, 3) == 0;
   return s;
 }
 static M::Fields rec_fields(const Rec& r) {
@@ -271,7 +273,10 @@ static RunResult run_scenario(const Scenario& s, const std::string& dir, bool sn
     }
   }
   g_ctx = 1000000;   // destruction
-  ex.reset();
+  if (s.unwind) {
+    try { std::unique_ptr<CDNS::CdnsExporter> local = std::move(ex); throw std::logic_error("application error after the last block"); }
+    catch (const std::logic_error&) {}
+  } else ex.reset();
   g_ctx = -1;
   snap(R.out_paths.back());
   return R;
